@@ -599,14 +599,14 @@ fn main() {
                         w.base(Backend::Mem, &format!("gen{i}"), &base, &mut rng, full, &sink);
                         // operations the model does not have (compaction, index created / removed in
                         // the open callback), small index buckets: implementation + oracle
-                        if i % 5 == 2 || (thorough && i % 2 == 0) {
+                        if i % 5 == 2 || (thorough && i % 4 == 0) {
                             let mut r2 = Rng::for_case(args.seed ^ 0xE87, i);
                             let ext = gen_::gen_base_ext(&mut r2, 8);
                             let be = [Backend::Mem, Backend::Meta, Backend::Enc][(i % 3) as usize];
                             w.base(be, &format!("ext{i}"), &ext, &mut r2, false, &sink);
                         }
                         // compaction with small buckets, compared with the model
-                        if i % 5 == 1 || (thorough && i % 2 == 1) {
+                        if i % 5 == 1 || (thorough && i % 4 == 1) {
                             let mut r2 = Rng::for_case(args.seed ^ 0xC0A, i);
                             // wall-clock stand-ins must stay ordered for the model: renumber them
                             let mut rc = 0u64;
